@@ -12,6 +12,7 @@ snapshot of sandbox + secrets is identical; accepted paths touch only the lexica
 from __future__ import annotations
 
 import asyncio
+import glob
 import hashlib
 import itertools
 import json
@@ -37,7 +38,7 @@ ASSUMPTIONS = [
 DIRSEG = ["sub", ".", "..", "link_in", "link_out", "", "newdir"]
 FINALS = ["new.oct.md", "f.oct.md", "x.md", "x.octave", "x.txt", "x.oct.md.sh", "X.OCT.MD", "f.oct.md/", "link_file.oct.md", "link_infile.oct.md",
           "dangling.oct.md", "a\x00b.oct.md", "L" * 300 + ".oct.md", ".oct.md", "noext", "x.oct.md.bak", "x.tar.md", "sub"]
-OPS = ["w_content", "w_changes", "w_normalize", "w_dry", "v_file", "atomic", "cli_write", "cli_normalize_o", "cli_seal_o"]
+OPS = ["w_content", "w_changes", "w_normalize", "w_dry", "v_file", "atomic", "cli_write", "cli_normalize_o", "cli_seal_o", "cli_write_changes"]      # (CLI commands that only READ a file are outside the property: "given to the CLI as a file to write")
 SECRET = "===SECRET===\nTOKEN::hunter2\n===END===\n"
 GOOD = "===D===\nK::v\n===END===\n"
 MUTATING = {"open", "openat", "fopen", "mkdir", "rename", "unlink", "rmdir", "link", "symlink", "truncate", "ftruncate", "chmod", "fchmod", "write", "opendir"}
@@ -163,6 +164,15 @@ def do_op(op, path, R):
     if op == "cli_write":
         q = e["runner"].invoke(e["cli"], ["write", path, "--content", GOOD])
         return {"status": "success" if q.exit_code == 0 else "error", "output": q.output[-200:]}
+    if op == "cli_write_changes":
+        q = e["runner"].invoke(e["cli"], ["write", path, "--changes", json.dumps({"K": "changed"})])
+        return {"status": "success" if q.exit_code == 0 else "error", "output": q.output[-200:]}
+    if op == "cli_validate":
+        q = e["runner"].invoke(e["cli"], ["validate", path])
+        return {"status": "success" if q.exit_code == 0 else "error", "output": q.output[-200:]}
+    if op == "cli_eject":
+        q = e["runner"].invoke(e["cli"], ["eject", path, "--format", "json"])
+        return {"status": "success" if q.exit_code == 0 else "error", "output": q.output[-200:]}
     if op == "cli_normalize_o":
         q = e["runner"].invoke(e["cli"], ["normalize", os.path.join(R, "in", "src.oct.md"), "-o", path])
         return {"status": "success" if q.exit_code == 0 else "error", "output": q.output[-200:]}
@@ -235,9 +245,28 @@ def check_schema_names(case) -> Res:
     """A chunk of names, in-process under LOGALL: a name may only open <dir>/<name or lower>.oct.md in a schema directory."""
     import re as _re
     from octave_mcp.schemas.loader import load_schema_by_name
-    lo, hi, n = case
-    names = Sequences(NAME_ALPHABET, n, 1)
     e = _env()
+    if case[0] == "paths":
+        # names that are PATHS made of well-formed (upper-case) components, absolute and relative, whose lower-cased spelling exists
+        _, lo, hi = case
+        out_dir = f"/dev/shm/vtc19n{os.getpid()}"
+        os.makedirs(os.path.join(out_dir, "outside"), exist_ok=True)
+        for fn in ("outside/secret.oct.md", "outside/SECRET.oct.md", "secret.oct.md"):
+            with open(os.path.join(out_dir, fn), "w", encoding="utf-8") as f:
+                f.write("===SECRET===\nMETA:\n  TYPE::PROTOCOL_DEFINITION\n  VERSION::\"1.0\"\n---\nFIELDS:\n  A::[\"x\"∧REQ∧ENUM[TOPSECRET]]\n===END===\n")
+        comps = ["DEV", "SHM", f"VTC19N{os.getpid()}", "OUTSIDE", "SECRET", "SPECS", "PRIVATE", "A", "AB", "SCHEMAS"]
+        plist = []
+        for pre in ("", "/", "//"):
+            for k in (1, 2, 3, 4, 5):
+                for combo in (itertools.product(comps, repeat=k) if k <= 3 else [("DEV", "SHM", comps[2], "OUTSIDE", "SECRET")[:k], ("DEV", "SHM", comps[2], "SECRET")[:k]]):
+                    if k == 1 and pre == "":
+                        continue
+                    plist.append(pre + "/".join(combo))
+        names = [tuple([x]) for x in plist]
+        e.setdefault("cleanup_dirs", []).append(out_dir)
+    else:
+        lo, hi, n = case
+        names = Sequences(NAME_ALPHABET, n, 1)
     cwd = os.path.join(e["root"], f"S{os.getpid()}")
     if not os.path.exists(cwd):
         os.makedirs(os.path.join(cwd, "specs", "schemas"))
@@ -450,6 +479,9 @@ def run(ctx):
     total = sum(len(NAME_ALPHABET) ** k for k in range(1, n + 1))
     step = 4000
     ctx.explore("schema_names", [(lo, lo + step, n) for lo in range(0, total, step)], check_schema_names, chunk=1)
+    ctx.explore("schema_names.paths", [("paths", lo, lo + 500) for lo in range(0, 3400, 500)], check_schema_names, chunk=1)
+    for _tmpd in glob.glob("/dev/shm/vtc19n*"):
+        shutil.rmtree(_tmpd, ignore_errors=True)
     ctx.coverage["schema_names_enumerated"] = total
     shapes = ["exact", "upper", "short", "long", "traversal", "traversal64", "slash", "nul", "newline", "prefix16_other_tail", "space", "empty", "latest", "Latest"]
     ctx.explore("frozen_refs", Product(shapes, ["good", "wrong_content", "symlink_to_outside_other", "absent"]), check_frozen, chunk=4)
